@@ -32,7 +32,7 @@ RecOf(tid) == Pool[Texts[tid].p]
 LoggedBag(tids) == BagOf(SeqMap(LAMBDA t : NormC(RecOf(t)), tids))
 
 \* complete identity of an abstract line (catalogue self-check)
-Full(l) == [rt |-> l.rt, name |-> l.name, refs |-> l.refs, f |-> l.f, num |-> l.num, ovs |-> l.ovs,
+Full(l) == [rt |-> l.rt, name |-> l.name, refs |-> l.refs, f |-> l.f, fc |-> l.fc, num |-> l.num, ovs |-> l.ovs,
             tags |-> {<<l.tg[i].n, l.tg[i].t, l.tg[i].v, l.tg[i].sub, l.tg[i].el>> : i \in DOMAIN l.tg}]
 
 CatOK(G, inp) ==
@@ -44,7 +44,7 @@ CatOK(G, inp) ==
 
 -----------------------------------------------------------------------------
 (* difference between a logged bag and the reference normal form, in words *)
-PosKey(x) == <<x.rt, x.name, x.refs, x.f>>
+PosKey(x) == <<x.rt, x.name, x.refs, x.f, x.fc>>
 CountIn(B, x) == IF x \in DOMAIN B THEN B[x] ELSE 0
 DiffClauses(L, E) ==
   LET miss == {x \in DOMAIN E : CountIn(L, x) < E[x]}
